@@ -584,26 +584,34 @@ def check_json(ctx):
         if not is_json:
             continue
         for ev in p.events:
-            if ev.kind != 'call' or not method_call(ev.node, 'writelines') \
-                    or not ev.node.args:
+            if ev.kind != 'call' or not ev.node.args or not (
+                    method_call(ev.node, 'writelines')
+                    or method_call(ev.node, 'write')):
                 continue
             n_json_writes += 1
             a = ti.expand(ev.node.args[0])
-            if not (isinstance(a, (ast.Tuple, ast.List)) and len(
-                    a.elts) == 3):
-                continue
+            if method_call(ev.node, 'writelines'):
+                if not isinstance(a, (ast.Tuple, ast.List)):
+                    continue
+                pieces = list(a.elts)
+            else:
+                pieces = [a]        # one text: its pieces in order
             try:
-                s0 = merge(segments(a.elts[0]))
-                s1 = merge(segments(a.elts[1]))
-                s2 = merge(segments(a.elts[2]))
+                whole = merge([x for pc in pieces for x in segments(pc)])
             except Unknown:
                 continue
+            js = [i for i, x in enumerate(whole) if isinstance(x, Join)]
+            if len(js) != 1:
+                continue
+            s0, s1, s2 = whole[:js[0]], [whole[js[0]]], whole[js[0] + 1:]
             txt = lambda sg: ''.join(x.text for x in sg
                                      if isinstance(x, Lit))
             if all(isinstance(x, Lit) for x in s0 + s2) and \
                     txt(s0).strip() == '{' and txt(s2).strip() == '}' and \
-                    len(s1) == 1 and isinstance(s1[0], Join) and \
-                    s1[0].elem is None and all(
+                    len(s1) == 1 and isinstance(s1[0], Join) and (
+                        s1[0].elem is None or (
+                            len(s1[0].elem) == 1 and isinstance(
+                                s1[0].elem[0], Hole))) and all(
                         isinstance(x, Lit) for x in s1[0].sep) and \
                     txt(s1[0].sep).strip() == ',':
                 okw = True
@@ -713,13 +721,24 @@ def check_every(ctx):
     for p in ti.paths:
         # (a) list(<section generator>) is written as it is
         for ev in p.events:
-            if ev.kind == 'call' and method_call(ev.node, 'writelines') and \
-                    ev.node.args:
+            if ev.kind == 'call' and (method_call(ev.node, 'writelines')
+                                      or method_call(ev.node, 'write')) \
+                    and ev.node.args:
                 for x in ast.walk(ti.expand(ev.node.args[0])):
                     if isinstance(x, ast.Call) and U(x.func) in (
                             'list', 'tuple') and x.args and isinstance(
                                 x.args[0], ast.Call) and prog.resolve(
                                     inner.module, x.args[0].func) == sec.qual:
+                        okw = True
+                    # [s for s in <section generator>]: every one, as it is
+                    if isinstance(x, (ast.ListComp, ast.GeneratorExp)) and \
+                            len(x.generators) == 1 and not \
+                            x.generators[0].ifs and U(x.elt) == U(
+                                x.generators[0].target) and isinstance(
+                                    x.generators[0].iter, ast.Call) and \
+                            prog.resolve(inner.module,
+                                         x.generators[0].iter.func) == \
+                            sec.qual:
                         okw = True
         # (b) every element of the section generator is appended
         loops = [c for c in p.conds if c.kind == 'loop' and c.pol
